@@ -14,7 +14,6 @@
 #ifndef VERIF_C10_PRODUCT_H
 #define VERIF_C10_PRODUCT_H
 #include "../C03/box_base.h"
-#if defined(VERIF_CBMC)
 #define P_D1(p) (&(p)->f0)
 #define P_D2(p) (&(p)->f1)
 #define P_REDUCED(p) ((p)->f2)
@@ -46,37 +45,39 @@ SPEC int prod_bounded(const PROD_T *p) {
   return prod_empty(p) || ALLK(dim_bounded(&SEQ(a)[0], &SEQ(b)[0]), dim_bounded(&SEQ(a)[1], &SEQ(b)[1]));
 }
 
+#define PKEEP_X POST(x_wf, prod_wf_any(x)) POST(x_keeps_its_points, !G_psatX0 || prod_sat(x))
+#define PKEEP_Y POST(y_wf, prod_wf_any(y)) POST(y_keeps_its_points, !G_psatY0 || prod_sat(y))
+/* clause tables: x, y are the operands (&G_px, &G_py), R the returned value */
+/* reduce(): components may shrink, the intersection may not change */
+#define C_p_reduce_POSTS(R) \
+  POST(intersection_unchanged, prod_sat(x) == G_psatX0) \
+  POST(components_only_shrink, (!bsat(P_D1(x)) || G_sat_x1_0) && (!bsat(P_D2(x)) || G_sat_x2_0)) \
+  POST(x_wf, prod_wf_any(x))
+#define C_p_is_empty_POSTS(R)          POST(definite, !(R) || !G_psatX0) PKEEP_X
+#define C_p_is_bounded_POSTS(R)        POST(definite, !(R) || prod_bounded(x)) PKEEP_X
+#define C_p_contains_POSTS(R)          POST(definite, !(R) || !G_psatY0 || G_psatX0) PKEEP_X PKEEP_Y
+#define C_p_is_disjoint_from_POSTS(R)  POST(definite, !(R) || !(G_psatX0 && G_psatY0)) PKEEP_X PKEEP_Y
+#define C_p_intersection_POSTS(R)      POST(contains_meet, !(G_psatX0 && G_psatY0) || prod_sat(x)) POST(x_wf, prod_wf_any(x)) PKEEP_Y
+#define C_p_upper_bound_POSTS(R)       POST(contains_join, !(G_psatX0 || G_psatY0) || prod_sat(x)) POST(x_wf, prod_wf_any(x)) PKEEP_Y
+#define C_p_upper_bound_if_exact_POSTS(R) \
+  POST(contains_join_when_true, !(R) || !(G_psatX0 || G_psatY0) || prod_sat(x)) \
+  POST(keeps_x_when_false, (R) || !G_psatX0 || prod_sat(x)) \
+  POST(x_wf, prod_wf_any(x)) PKEEP_Y
+#define C_p_difference_POSTS(R)        POST(contains_difference, !(G_psatX0 && !G_psatY0) || prod_sat(x)) POST(x_wf, prod_wf_any(x)) PKEEP_Y
+#define C_p_topological_closure_POSTS(R) POST(contains_x, !G_psatX0 || prod_sat(x)) POST(x_wf, prod_wf_any(x))
+
+#if defined(VERIF_CBMC)
 #define FRAME_P __CPROVER_object_whole(&G_px), __CPROVER_object_whole(&G_py), __CPROVER_object_whole(G_x1s), __CPROVER_object_whole(G_x2s), __CPROVER_object_whole(G_y1s), __CPROVER_object_whole(G_y2s)
 #define FREES_P FREES(G_x1s, G_x2s, G_y1s, G_y2s)
 #define PRE_PX  PRE(wf_x, x == &G_px && prod_wf_entry(x, G_x1s, G_x2s)) PRE(point, pt_ok())
 #define PRE_PXY PRE_PX PRE(wf_y, y == &G_py && prod_wf_entry(y, G_y1s, G_y2s))
-#define PKEEP_X POST(x_wf, prod_wf_any(x)) POST(x_keeps_its_points, !G_psatX0 || prod_sat(x))
-#define PKEEP_Y POST(y_wf, prod_wf_any(y)) POST(y_keeps_its_points, !G_psatY0 || prod_sat(y))
-
-/* reduce(): components may shrink, the intersection may not change */
-_Bool FN_p_reduce(const PROD_T *x) PRE_PX ASSIGNS(FRAME_P) FREES_P
-  POST(intersection_unchanged, prod_sat(x) == G_psatX0)
-  POST(components_only_shrink, (!bsat(P_D1(x)) || G_sat_x1_0) && (!bsat(P_D2(x)) || G_sat_x2_0))
-  POST(x_wf, prod_wf_any(x));
-_Bool FN_p_is_empty(const PROD_T *x) PRE_PX ASSIGNS(FRAME_P) FREES_P
-  POST(definite, !RET || !G_psatX0) PKEEP_X;
-_Bool FN_p_is_bounded(const PROD_T *x) PRE_PX ASSIGNS(FRAME_P) FREES_P
-  POST(definite, !RET || prod_bounded(x)) PKEEP_X;
-_Bool FN_p_contains(const PROD_T *x, const PROD_T *y) PRE_PXY ASSIGNS(FRAME_P) FREES_P
-  POST(definite, !RET || !G_psatY0 || G_psatX0) PKEEP_X PKEEP_Y;
-_Bool FN_p_is_disjoint_from(const PROD_T *x, const PROD_T *y) PRE_PXY ASSIGNS(FRAME_P) FREES_P
-  POST(definite, !RET || !(G_psatX0 && G_psatY0)) PKEEP_X PKEEP_Y;
-void FN_p_intersection(PROD_T *x, const PROD_T *y) PRE_PXY ASSIGNS(FRAME_P) FREES_P
-  POST(contains_meet, !(G_psatX0 && G_psatY0) || prod_sat(x)) POST(x_wf, prod_wf_any(x)) PKEEP_Y;
-void FN_p_upper_bound(PROD_T *x, const PROD_T *y) PRE_PXY ASSIGNS(FRAME_P) FREES_P
-  POST(contains_join, !(G_psatX0 || G_psatY0) || prod_sat(x)) POST(x_wf, prod_wf_any(x)) PKEEP_Y;
-_Bool FN_p_upper_bound_if_exact(PROD_T *x, const PROD_T *y) PRE_PXY ASSIGNS(FRAME_P) FREES_P
-  POST(contains_join_when_true, !RET || !(G_psatX0 || G_psatY0) || prod_sat(x))
-  POST(keeps_x_when_false, RET || !G_psatX0 || prod_sat(x))
-  POST(x_wf, prod_wf_any(x)) PKEEP_Y;
-void FN_p_difference(PROD_T *x, const PROD_T *y) PRE_PXY ASSIGNS(FRAME_P) FREES_P
-  POST(contains_difference, !(G_psatX0 && !G_psatY0) || prod_sat(x)) POST(x_wf, prod_wf_any(x)) PKEEP_Y;
-void FN_p_topological_closure(PROD_T *x) PRE_PX ASSIGNS(FRAME_P) FREES_P
-  POST(contains_x, !G_psatX0 || prod_sat(x)) POST(x_wf, prod_wf_any(x));
+#define PROD_PRED1(OP) _Bool FN_p_##OP(const PROD_T *x) PRE_PX ASSIGNS(FRAME_P) FREES_P C_p_##OP##_POSTS(RET);
+#define PROD_PRED2(OP) _Bool FN_p_##OP(const PROD_T *x, const PROD_T *y) PRE_PXY ASSIGNS(FRAME_P) FREES_P C_p_##OP##_POSTS(RET);
+#define PROD_MUT2(OP)  void FN_p_##OP(PROD_T *x, const PROD_T *y) PRE_PXY ASSIGNS(FRAME_P) FREES_P C_p_##OP##_POSTS(0);
+PROD_PRED1(reduce) PROD_PRED1(is_empty) PROD_PRED1(is_bounded)
+PROD_PRED2(contains) PROD_PRED2(is_disjoint_from)
+PROD_MUT2(intersection) PROD_MUT2(upper_bound) PROD_MUT2(difference)
+_Bool FN_p_upper_bound_if_exact(PROD_T *x, const PROD_T *y) PRE_PXY ASSIGNS(FRAME_P) FREES_P C_p_upper_bound_if_exact_POSTS(RET);
+void FN_p_topological_closure(PROD_T *x) PRE_PX ASSIGNS(FRAME_P) FREES_P C_p_topological_closure_POSTS(0);
 #endif
 #endif
